@@ -9,6 +9,37 @@ use crate::verif_kani::spec;
 use crate::verif_kani::spec_prims as sp;
 use crate::verif_kani::vk::*;
 
+// Stubs with the same generic structure as the inherent methods they replace in the wiring harnesses (Kani's stub
+// type check compares the impl-level parameter `CS`): they delegate to the reference stubs in w_stubs.rs.
+impl<CS: CipherSuite> Envelope<CS> {
+    #[allow(clippy::type_complexity)]
+    pub(crate) fn verif_seal_stub<R: RngCore + CryptoRng>(
+        rng: &mut R,
+        randomized_pwd_hasher: Hkdf<OprfHash<CS>>,
+        server_s_pk: &PublicKey<CS::KeGroup>,
+        ids: Identifiers,
+    ) -> Result<SealResult<CS>, ProtocolError> {
+        crate::verif_kani::w_stubs::seal::<CS, R>(rng, randomized_pwd_hasher, server_s_pk, ids)
+    }
+
+    /// nonce || auth_tag without the `serialize()` where-clauses
+    pub(crate) fn to_bytes_for_verif(&self) -> [u8; 40] {
+        let mut out = [0u8; 40];
+        out[..32].copy_from_slice(&self.nonce);
+        out[32..].copy_from_slice(&self.hmac[..8]);
+        out
+    }
+
+    pub(crate) fn verif_open_stub<'a>(
+        &self,
+        randomized_pwd_hasher: Hkdf<OprfHash<CS>>,
+        server_s_pk: PublicKey<CS::KeGroup>,
+        optional_ids: Identifiers<'a>,
+    ) -> Result<OpenedEnvelope<'a, CS>, ProtocolError> {
+        crate::verif_kani::w_stubs::open::<CS>(self, randomized_pwd_hasher, server_s_pk, optional_ids)
+    }
+}
+
 fn hkdf_of(rpwd: &[u8; 8]) -> Hkdf<MHash> {
     Hkdf::<MHash>::from_prk(rpwd).unwrap()
 }
@@ -96,4 +127,63 @@ harnesses! {
     fn s9_open_default_ids [unwind = 46] { open_case(false, 0, false, 0); }
     fn s9_open_explicit_ids [unwind = 46] { open_case(true, 2, true, 1); }
     fn s9_open_mixed_ids [unwind = 46] { open_case(true, 0, false, 0); }
+
+    /// S9 (quick): open_raw is exact — Ok <=> stored tag == MAC(Expand(rpwd, nonce||AuthKey), nonce || aad); export key formula
+    fn s9_open_raw_exact [unwind = 46] {
+        let rpwd = any_bytes::<8>();
+        let envb = any_bytes::<40>();
+        let aad1 = any_bytes::<2>();
+        let aad2 = any_bytes::<3>();
+        let env = Envelope::<M>::deserialize(&envb).unwrap();
+        let r = env.open_raw(hkdf_of(&rpwd), [&aad1[..], &aad2[..]].into_iter());
+        let auth_key = sp::hkdf_expand8(&rpwd, &[&envb[0..32], b"AuthKey"]);
+        let tag = sp::hmac(&auth_key, &[&envb[0..32], &aad1, &aad2]);
+        let tag_ok = eq_bytes(&tag, &envb[32..40]);
+        match r {
+            Ok(o) => {
+                check!(tag_ok, "envelope opens only if its tag is the MAC over nonce and associated data");
+                check!(eq_bytes(&o.export_key, &sp::hkdf_expand8(&rpwd, &[&envb[0..32], b"ExportKey"])), "export key == Expand(randomized_pwd, nonce || ExportKey)");
+                cover!(true, "opened");
+            }
+            Err(e) => {
+                check!(!tag_ok, "an envelope with the right tag opens");
+                check!(matches!(e, InternalError::SealOpenHmacError), "tag mismatch is the seal-open error");
+                cover!(true, "rejected");
+            }
+        }
+        core::mem::forget(env);
+    }
+
+    /// S9 (quick): seal_raw: tag and export key formulas (same as open_raw's)
+    fn s9_seal_raw [unwind = 46] {
+        let rpwd = any_bytes::<8>();
+        let nonce = any_bytes::<32>();
+        let aad1 = any_bytes::<2>();
+        let aad2 = any_bytes::<3>();
+        let r = Envelope::<M>::seal_raw(hkdf_of(&rpwd), GenericArray::clone_from_slice(&nonce), [&aad1[..], &aad2[..]].into_iter(), InnerEnvelopeMode::Internal);
+        check!(r.is_ok(), "sealing succeeds");
+        if let Ok(res) = r {
+            let envb = res.0.serialize();
+            let auth_key = sp::hkdf_expand8(&rpwd, &[&nonce, b"AuthKey"]);
+            check!(eq_bytes(&envb[0..32], &nonce), "envelope carries the nonce");
+            check!(eq_bytes(&envb[32..40], &sp::hmac(&auth_key, &[&nonce, &aad1, &aad2])), "auth_tag == MAC(Expand(randomized_pwd, nonce||AuthKey), nonce || aad)");
+            check!(eq_bytes(&res.1, &sp::hkdf_expand8(&rpwd, &[&nonce, b"ExportKey"])), "export key == Expand(randomized_pwd, nonce || ExportKey)");
+            cover!(true, "reached");
+            core::mem::forget(res);
+        }
+    }
+
+    /// S9 (quick): construct_aad orders the associated data as server_public_key || id_s || id_u
+    fn s9_construct_aad_order [unwind = 12] {
+        let a = any_bytes::<2>();
+        let b = any_bytes::<3>();
+        let c = any_bytes::<2>();
+        let mut it = construct_aad([&a[..]].into_iter(), [&b[..]].into_iter(), &c);
+        let (x, y, z, end) = (it.next(), it.next(), it.next(), it.next());
+        check!(x.map(|s| eq_bytes(s, &c)) == Some(true), "server public key first");
+        check!(y.map(|s| eq_bytes(s, &b)) == Some(true), "then the server identity");
+        check!(z.map(|s| eq_bytes(s, &a)) == Some(true), "then the client identity");
+        check!(end.is_none(), "nothing else");
+        cover!(true, "reached");
+    }
 }
